@@ -382,6 +382,10 @@ def run(ctx):
             bad = [o for o in sub17.obligations if not o.ok]
             ctx.ob("C15.R8", f17, not bad, "%s.%s keeps no state between calls%s" % (cls17, meth17, (": " + bad[0].what) if bad else ""), key="stateless")
     ctx.floor("C15.R8", 10)
+    # the inner construct of ProcessXor / ProcessRotateLeft / Compressed-like wrappers parses from a BytesIOWithOffsets over the transformed bytes:
+    # what it is "presented with" includes where tell() and relative / end-relative seeks land (shared with C08.R3)
+    from . import C08 as _C08
+    _C08.substream_class_checks(ctx, "C15.R8")
     # ---- R7 length preservation
     length_preserving(ctx, "C15.R7")
     ctx.floor("C15.R7", 4)
